@@ -302,6 +302,14 @@ def scenarios(rng: random.Random, tier: str):
         out.append(CFG + " | start | acc | " + handshake(0, "peer1.x") + " | " + req(0, "peer1.x", "realm.local", 4) + " | " + again +
                    " | rx 0 " + nodegen.dwr(hbh[0], 9000 + hbh[0]) + " | " +
                    " | ".join(req(0, "peer1.x", r, a) for r in ("realm.local", "other.realm") for a in (4, 3)))
+    # a configured peer with two ready connections (the node accepts a second one): requests over either are this peer's,
+    # also after the first connection has gone and over the survivor
+    for who, other in (("peer1.x", "peer2.x"), ("peer2.x", "peer1.x")):
+        two = CFG + " | start | acc | acc | acc | " + handshake(0, who) + " | " + handshake(1, who) + " | " + handshake(2, other)
+        rq = lambda: " | ".join(req(c, who, r, a) for c in (1, 0) for r in ("realm.local", "other.realm") for a in (4, 3))  # noqa: E731
+        out.append(two + " | " + rq() + " | rx 1 " + nodegen.dwr(hbh[0] + 500, 9500 + hbh[0]) + " | eof 0 | tick | " +
+                   " | ".join(req(1, who, r, a) for r in ("realm.local", "other.realm") for a in (4, 3)))
+        out.append(two + " | eof 1 | tick | " + " | ".join(req(0, who, r, a) for r in ("realm.local", "other.realm") for a in (4, 3)))
     # "unknown" peers of the quantifier: a ready connection that resolves to none of the configured peers gets the first
     # application with the request's id (no history of the node produces such a connection; the scenario makes one)
     for conn in (0, 1, 2):
